@@ -418,7 +418,7 @@ theorem C05_empty_commit (s : St) (db : DB) (g : GDir) (sync : Bool) (id : Nat) 
     not create one.) -/
 theorem C04_live_durable (s : St) (db : DB) (g : GDir) (sync : Bool) (id : Nat) (ops : List BOp)
     (h : Pre s db g id ops) (hnomerge : s.world.get (mergeDirName db.dir) = none)
-    (cfg' : Cfg) (hcfg : cfg'.fileSize > 0) :
+    (cfg' : Cfg) (hcfg : cfg'.Valid) :
     (close (runBatch s sync id ops).1).2 = .ok ∧
     ∃ s' db' g', openDB (close (runBatch s sync id ops).1).1 db.dir cfg' = (s', .ok) ∧ s'.db = some db' ∧
       Inv s' db' g' ∧
@@ -439,7 +439,7 @@ theorem C04_live_durable (s : St) (db : DB) (g : GDir) (sync : Bool) (id : Nat) 
     cycles with arbitrary valid configurations -/
 theorem C04_live_durable_iter (s : St) (db : DB) (g : GDir) (sync : Bool) (id : Nat) (ops : List BOp)
     (h : Pre s db g id ops) (hnomerge : s.world.get (mergeDirName db.dir) = none)
-    (cfgs : List Cfg) (hcfgs : ∀ c ∈ cfgs, c.fileSize > 0) :
+    (cfgs : List Cfg) (hcfgs : ∀ c ∈ cfgs, c.Valid) :
     ∃ db' g', (cfgs.foldl (fun s c => C02.restart s db.dir c) (runBatch s sync id ops).1).db = some db' ∧
       Inv (cfgs.foldl (fun s c => C02.restart s db.dir c) (runBatch s sync id ops).1) db' g' ∧
       (∀ k, absGet (cfgs.foldl (fun s c => C02.restart s db.dir c) (runBatch s sync id ops).1) db' k
@@ -467,7 +467,7 @@ theorem C04_live_visible (s : St) (db : DB) (g : GDir) (sync : Bool) (id : Nat) 
 /-- the hypotheses are satisfiable by a freshly opened database, for every configuration — also
     with a `fileSize` so small that EVERY staging step triggers an intermediate flush — and every
     positive id below 2^63 -/
-theorem Pre_fresh (dir : String) (cfg : Cfg) (hc : cfg.fileSize > 0) (id : Nat) (h0 : 0 < id) (hlt : id < 2 ^ 63)
+theorem Pre_fresh (dir : String) (cfg : Cfg) (hc : cfg.Valid) (id : Nat) (h0 : 0 < id) (hlt : id < 2 ^ 63)
     (ops : List BOp) (hok : ∀ op ∈ ops, BOpOK op) :
     ∃ db, Pre (openDB St.init dir cfg).1 db [(0, [])] id ops ∧ absGet (openDB St.init dir cfg).1 db = fun _ => none := by
   rw [openDB_fresh dir cfg hc]
@@ -480,7 +480,7 @@ theorem Pre_fresh (dir : String) (cfg : Cfg) (hc : cfg.fileSize > 0) (id : Nat) 
 
 /-- a concrete session on a fresh database, symbolic key and values, ANY configuration:
     read-your-writes inside the batch, put-delete-put ends present -/
-example (dir : String) (cfg : Cfg) (hc : cfg.fileSize > 0) (k v w : ByteArray)
+example (dir : String) (cfg : Cfg) (hc : cfg.Valid) (k v w : ByteArray)
     (hk0 : k.size ≠ 0) (hk : k.size < 2 ^ 31) (hv : v.size < 2 ^ 31) (hw : w.size < 2 ^ 31) :
     (runBatch (openDB St.init dir cfg).1 true 7
         [.bget k, .bput k v, .bget k, .bdel k, .bget k, .bput k w, .bget k, .bget ByteArray.empty]).2
@@ -506,7 +506,7 @@ example (dir : String) (cfg : Cfg) (hc : cfg.fileSize > 0) (k v w : ByteArray)
 /-- a session that reads and deletes a value stored BEFORE the batch (it lives in the log written by
     a plain `Put`), any configuration — with a tiny `fileSize` the value sits in a rotated file and
     the batch flushes in between -/
-example (dir : String) (cfg : Cfg) (hc : cfg.fileSize > 0) (a x k v : ByteArray) (hne : k ≠ a)
+example (dir : String) (cfg : Cfg) (hc : cfg.Valid) (a x k v : ByteArray) (hne : k ≠ a)
     (ha0 : a.size ≠ 0) (ha : a.size < 2 ^ 31) (hx : x.size < 2 ^ 31)
     (hk0 : k.size ≠ 0) (hk : k.size < 2 ^ 31) (hv : v.size < 2 ^ 31) :
     (runBatch (Engine.put (openDB St.init dir cfg).1 a x).1 false 9
